@@ -37,6 +37,8 @@ enum LoginType {
     /// service account with a generated password (always a time-limited read-write session)
     GeneratedPassword { privileged: bool },
     LdapBind,
+    /// person whose credential is a trust to an upstream OAuth2 provider (harness plays the provider)
+    OAuth2Trust { privileged: bool },
     ApiRo { compact: bool },
     ApiRw { compact: bool },
 }
@@ -76,6 +78,7 @@ fn arb_login() -> impl Strategy<Value = LoginType> {
         3 => any::<bool>().prop_map(|privileged| LoginType::PasswordTotp { privileged }),
         1 => any::<bool>().prop_map(|privileged| LoginType::GeneratedPassword { privileged }),
         1 => Just(LoginType::LdapBind),
+        2 => any::<bool>().prop_map(|privileged| LoginType::OAuth2Trust { privileged }),
         1 => any::<bool>().prop_map(|compact| LoginType::ApiRo { compact }),
         1 => any::<bool>().prop_map(|compact| LoginType::ApiRw { compact }),
     ]
@@ -136,6 +139,8 @@ fn secs_of(t: time::OffsetDateTime) -> u64 {
 
 const PERSON: &str = "vperson";
 const SVC: &str = "vsvc";
+const TRUST: &str = "vtrust";
+const TRUST_SUB: &str = "upstream-subject-1";
 
 /// strictest (minimum) value of a policy attribute over the account's stored policy groups
 async fn strictest(w: &World, member: Uuid, attr: Attribute, default_max: u32) -> u32 {
@@ -168,17 +173,19 @@ fn run(rt: &tokio::runtime::Runtime, c: &Case) -> Outcome {
         let person = pop::person_uuid(0);
         let svc = pop::service_uuid(0);
         let polgrp = pop::group_uuid(0);
+        let trust_person = pop::person_uuid(1);
         let totp = matches!(c.login, LoginType::PasswordTotp { .. });
         let mech = if totp { Mech::PasswordTotp } else { Mech::Password };
         let setup: Result<(), OperationError> = async {
             w.create_person(100, person, PERSON, Some(mech), gs::PW).await?;
             w.enable_posix(101, person, 70001, gs::UNIX_PW).await?;
             w.create_service(102, svc, SVC).await?;
+            w.create_oauth2_trust_person(105, pop::uuid_of(pop::Kind::Other, 0x33), trust_person, TRUST, TRUST_SUB, pop::uuid_of(pop::Kind::Other, 0x34)).await?;
             w.modify(103, UUID_DOMAIN_INFO, vec![Modify::Purged(Attribute::LdapAllowUnixPwBind), Modify::Present(Attribute::LdapAllowUnixPwBind, Value::Bool(true))])
                 .await?;
             let (pe, se) = (c.priv_expiry, c.session_expiry);
-            w.write(104, move |t| {
-                let mut g = pop::group(polgrp, "vpolicy", &[person, svc]);
+            w.write(110, move |t| {
+                let mut g = pop::group(polgrp, "vpolicy", &[person, svc, trust_person]);
                 g.add_ava(Attribute::Class, EntryClass::AccountPolicy.to_value());
                 if let Some(v) = pe {
                     g.add_ava(Attribute::PrivilegeExpiry, Value::Uint32(v));
@@ -195,7 +202,13 @@ fn run(rt: &tokio::runtime::Runtime, c: &Case) -> Outcome {
             log.fail("harness: setup failed", format!("{e:?}"));
             return;
         }
-        let subject = if matches!(c.login, LoginType::GeneratedPassword { .. } | LoginType::ApiRo { .. } | LoginType::ApiRw { .. }) { svc } else { person };
+        let subject = if matches!(c.login, LoginType::GeneratedPassword { .. } | LoginType::ApiRo { .. } | LoginType::ApiRw { .. }) {
+            svc
+        } else if matches!(c.login, LoginType::OAuth2Trust { .. }) {
+            trust_person
+        } else {
+            person
+        };
         // the model's windows, from the stored policy entries
         let priv_window = strictest(&w, subject, Attribute::PrivilegeExpiry, 3600).await.min(3600) as u64;
         let session_len = strictest(&w, subject, Attribute::AuthSessionExpiry, u32::MAX).await as u64;
@@ -248,6 +261,26 @@ fn run(rt: &tokio::runtime::Runtime, c: &Case) -> Outcome {
                     }
                 }
             }
+            LoginType::OAuth2Trust { privileged } => match w.login_oauth2_trust(TRUST, TRUST_SUB, privileged, now).await {
+                Login::Success(t) => {
+                    let u = parse_uat(&t);
+                    // the issued token itself must be a read-only one, whatever was requested
+                    if let Some(u) = &u {
+                        if !matches!(u.purpose, kanidm_proto::internal::UatPurpose::ReadOnly) {
+                            log.fail(
+                                "oauth2-trust-login issued a token whose purpose is not read-only",
+                                format!("privileged={privileged}: token purpose {:?}", u.purpose),
+                            );
+                            return;
+                        }
+                    }
+                    toks.push(T { uat: u, bearer: Bearer::Token(t), grant: Grant::Never, label: "oauth2-trust-login" });
+                }
+                o => {
+                    log.fail("harness: oauth2 trust login failed", format!("{o:?}"));
+                    return;
+                }
+            },
             LoginType::LdapBind => {
                 let mut a = w.idms.auth().await.expect("auth");
                 let r = a.auth_ldap(&LdapAuthEvent::from_parts(person, gs::UNIX_PW.to_string()).expect("ev"), ct(now)).await;
@@ -276,6 +309,22 @@ fn run(rt: &tokio::runtime::Runtime, c: &Case) -> Outcome {
             }
         }
         w.process_delayed(now).await;
+        if matches!(c.login, LoginType::OAuth2Trust { .. }) {
+            // the recorded session of a trust login must be a read-only one
+            let sid = toks[0].uat.as_ref().map(|u| u.session_id);
+            let rec = match sid {
+                Some(sid) => w.entry(subject).await.ok().and_then(|e| hk::uat_sessions(&e).get(&sid).cloned()),
+                None => None,
+            };
+            match rec {
+                Some(r) if r.scope != SessionScope::ReadOnly => {
+                    log.fail("oauth2-trust-login recorded a session that is not read-only", format!("recorded scope {:?}", r.scope));
+                    return;
+                }
+                Some(_) => log.class("oauth2-trust:session-recorded-read-only"),
+                None => log.class("oauth2-trust:no-session-record"),
+            }
+        }
         let original_expiry: Option<Option<u64>> = toks[0].uat.as_ref().map(|u| u.expiry.map(secs_of));
         let session_id = toks[0].uat.as_ref().map(|u| u.session_id);
         let stored_expiry_0 = match session_id {
@@ -426,10 +475,10 @@ fn main() {
     let cx = Check::from_args("C33", "exploration");
     cx.rule(
         "one fresh IdmServer per case: policy group with privilege_expiry in {absent,1,2,30,60,599,600,601,3600,7200} and session expiry in {absent,60,600,3599,3600,3601,86400,172800}; one login of type \
-         {anonymous, password, password+TOTP (privileged or not), generated service password, LDAP password bind, API token ro/rw full/compact}; then 2-14 events: clock steps (fixed, privilege window +-2 s, one hour +-2 s, session length +-2 s) and re-authentications \
+         {anonymous, password, password+TOTP (privileged or not), generated service password, LDAP password bind, OAuth2 trust (privileged or not; the harness plays the upstream provider), API token ro/rw full/compact}; then 2-14 events: clock steps (fixed, privilege window +-2 s, one hour +-2 s, session length +-2 s) and re-authentications \
          (grant privilege or verify only, on any earlier token); after every event every token is used and its AccessScope compared with the model. non-trivial = a token was read-write inside its window and read-only after it, or an always-read-only login was re-authenticated; distinct by hash of the case",
     );
-    cx.assume("client-certificate and OAuth2-trust logins are not driven (no certificate / upstream provider fixture)");
+    cx.assume("client-certificate logins are not driven (no certificate fixture); the OAuth2 trust login runs through the real auth state machine with the harness answering as the upstream provider");
     cx.assume("instants exactly at window end are not judged; generated-password service logins are judged only by the bounded window rule (they are read-write by design for at most one hour)");
     let n = cx.tier.pick(800, 16_000);
     let len = cx.tier.pick(2..15usize, 2..30usize);
@@ -443,6 +492,8 @@ fn main() {
         ("ro:reauth-verify-only", 20),
         ("ro:anonymous", 10),
         ("ro:ldap-password-bind", 10),
+        ("ro:oauth2-trust-login", 30),
+        ("oauth2-trust:session-recorded-read-only", 30),
         ("ro:api-token-ro", 10),
         ("rw:api-token-rw (exempt)", 10),
         ("rw-inside-window:generated-password-login", 10),
